@@ -1,1 +1,59 @@
-fn main(){}
+extern crate proc_macro;
+
+// The included macro sources refer to each other through `crate::fn_timeline`.
+pub use expand::fn_timeline_src as fn_timeline;
+
+mod c15;
+mod expand;
+mod genrun;
+mod gt;
+mod norm;
+
+use vlib::util::*;
+
+fn main() {
+    let args: Vec<String> = std::env::args().skip(1).collect();
+    if args.is_empty() {
+        machinery_fail("usage: vmacro <id> [quick|thorough] [--replay <file>]");
+    }
+    match args[0].as_str() {
+        "expand-timeline" => return println!("{:?}", expand::expand_timeline(&args[1]).map(|t| t.to_string())),
+        "expand-animator" => return println!("{:?}", expand::expand_animator(&args[1]).map(|t| t.to_string())),
+        "expand-derive" => return println!("{:?}", expand::expand_derive(&args[1]).map(|t| t.to_string())),
+        _ => {}
+    }
+    let id = args[0].to_uppercase();
+    let mut tier = std::env::var("VERIF_TIER").unwrap_or_else(|_| "quick".into());
+    let mut replay: Option<String> = None;
+    let mut i = 1;
+    while i < args.len() {
+        match args[i].as_str() {
+            "quick" | "thorough" => tier = args[i].clone(),
+            "--replay" => {
+                i += 1;
+                replay = Some(args[i].clone());
+            }
+            other => machinery_fail(&format!("unknown argument {other}")),
+        }
+        i += 1;
+    }
+    if let Some(path) = replay {
+        let txt = std::fs::read_to_string(&path).unwrap_or_else(|e| machinery_fail(&format!("read {path}: {e}")));
+        let v: serde_json::Value = serde_json::from_str(&txt).unwrap_or_else(|e| machinery_fail(&format!("parse {path}: {e}")));
+        let ok = match id.as_str() {
+            "C15" => c15::replay(&v["case"]),
+            _ => machinery_fail("no replay for this id"),
+        };
+        if ok {
+            println!("replay: property holds on this case");
+            std::process::exit(0);
+        }
+        println!("VIOLATION property={id} replay={path}");
+        std::process::exit(1);
+    }
+    let run = Run::start(&id, &tier);
+    match id.as_str() {
+        "C15" => c15::run(run),
+        _ => machinery_fail("unknown property id"),
+    }
+}
